@@ -137,6 +137,22 @@ def _part_a_dag(args):
             res.add('transitions', len(h))
             outcomes.add(ov)
             res.violations.extend(vs[:2])
+    # two force calls in a row on one chain (seed C07_o: a task that is already forced ignoring a later delete_data=True): the second
+    # call is carried out in full whatever the first one marked - every ordered pair of named sets x flags of the second call
+    if n == 3:
+        sets = [c for k in range(1, n + 1) for c in combinations(names, k)]
+        for first in [c for c in sets if len(c) in (1, n)]:
+            for second in sets:
+                for rec2, dele2 in ((False, True), (True, False), (True, True)):
+                    h = [['new', 0, 'v0']] + [['value', 0, t] for t in names] + [['restart'], ['new', 0, 'v0'], ['cforce', 0, list(first), False, False],
+                         ['cforce', 0, list(second), rec2, dele2], ['inspect', 0]] + [['value', 0, names[i]] for i in request_orders[0](n)] + [
+                         ['inspect', 0], ['restart'], ['new', 1, 'v0'], ['value', 1, names[-1]], ['value', 1, names[0]]]
+                    vs, c, ov = histories.run_history(desc, h, jf)
+                    res.add('evaluations')
+                    res.add('double_force_histories')
+                    res.add('transitions', len(h))
+                    outcomes.add(ov)
+                    res.violations.extend(vs[:2])
     res.coverage['states'] = len(outcomes)
     res.coverage['distinct_nontrivial'] = len(outcomes)
     if len(edges) == n - 1 and n >= 3:
